@@ -621,7 +621,7 @@ impl World {
         match r { Ok(Ok(v)) => Some(v), _ => None }
     }
 
-    fn raw_singleton<T: serde::de::DeserializeOwned>(&self, c: &Addr, key: &[u8]) -> Option<T> {
+    pub fn raw_singleton<T: serde::de::DeserializeOwned>(&self, c: &Addr, key: &[u8]) -> Option<T> {
         let mut k = vec![0u8, key.len() as u8];
         k.extend_from_slice(key);
         let v = self.app.wrap().query_wasm_raw(c, k).ok()??;
